@@ -1,0 +1,16 @@
+#pragma once
+// Verification hooks: compiled in only with -DCOLOQUINTE_VERIF. A harness may
+// define coloquinte_verif_point to observe/schedule the marked points; when it
+// does not, the weak symbol is null and the points cost one test.
+#ifdef COLOQUINTE_VERIF
+extern "C" void coloquinte_verif_point(const char *where, const void *obj)
+    __attribute__((weak));
+#define COLOQUINTE_VERIF_POINT(where, obj)                          \
+  do {                                                              \
+    if (coloquinte_verif_point) coloquinte_verif_point(where, obj); \
+  } while (0)
+#else
+#define COLOQUINTE_VERIF_POINT(where, obj) \
+  do {                                     \
+  } while (0)
+#endif
